@@ -16,6 +16,8 @@ def run(tier, seed, update_lock=False):
     from contracts import ra_index as RI, tpt_path as TPP
     units += [Unit('ra-index', RI.registry()), Unit('ra-2d-slice[]', RI.registry_iis(True, True, True, exclude={'ra-2d-slice-empty-row'})),
               Unit('path-removal', TPP.registry()), Unit('paths[subtract]', TPP.registry_paths('subtract', False), keys=[TPP.F + 'paths'])]
+    from contracts import channelcap as CCN
+    units.append(Unit('channel-capacity[array]', CCN.registry('array')))        # np.divide(out=) writes a private copy: the caller's matrix is in the frame
     for kind in ('euclidean', 'manhattan', 'hamming'):
         units.append(Unit('%s[out=none]' % kind, CL.registry(kind, 'none'), keys=[CL.F + kind, CL.F + '_' + kind]))
     for u in units:
